@@ -229,6 +229,72 @@ Qed.
 
 End FencePipeline.
 
+(* the same with an info string: its first word, decoded by unescape_all, becomes the class *)
+Definition class_attr (pfx info : str) : str :=
+  match first_word (unescape_all info) with
+  | [] => []
+  | w => bs " class=""" ++ escape_html (pfx ++ w) ++ bs """"
+  end.
+
+Lemma render_root_fence_info xhtml rm ra re mk_ k info c pfx rng :
+  render xhtml (Node KRoot rm ra re [mk (KFence info mk_ k c pfx) rng []]) =
+  inr (replace_nul (bs "<pre><code" ++ class_attr pfx info ++ bs ">" ++ escape_html c ++ bs "</code></pre>" ++ [10]%N)).
+Proof.
+  unfold render, class_attr. cbn [render_events mk n_kind n_attrs n_children map]. cbv zeta.
+  destruct (first_word (unescape_all info)) as [|w0 w]; cbn [bind ret app]; rewrite serialize_chunks; f_equal; f_equal.
+  all: cbn [chunks chunk concat at_line_start ser_event rpush rev_append make_attrs fold_left attrs_chunk flat_map fst snd app].
+  all: try (let v := eval vm_compute in (escape_html (bs "class")) in change (escape_html (bs "class")) with v).
+  all: repeat match goal with |- context [bs ?s] => let v := eval vm_compute in (bs s) in change (bs s) with v end.
+  all: change (62 =? 10) with false; cbv iota.
+  all: repeat (rewrite <- ?app_assoc; cbn [app]).
+  all: reflexivity.
+Qed.
+
+Section FenceInfoPipeline.
+Variables (m : N) (n : nat) (pre cpre trail params : str) (n' : nat) (texts : list (list N)) (src : str).
+
+Hypothesis Hm : m = 96 \/ m = 126.
+Hypothesis Hn : (3 <= n)%nat.
+Hypothesis Hpre : forallb is_ws pre = true.
+Hypothesis Hcpre : forallb is_ws cpre = true.
+Hypothesis Hcols : cols_from 0 pre < 4.
+Hypothesis Hccols : cols_from 0 cpre < 4.
+Hypothesis Hparams0 : match params with x :: _ => (x =? m) = false | [] => True end.
+Hypothesis Hparams : m = 96 -> mem 96 params = false.
+Hypothesis Hruns : forall T, In T texts -> runs_lt m (N.of_nat n) T = true.
+Hypothesis Hn' : (n <= n')%nat.
+Hypothesis Htrail : all_sptab trail = true.
+Hypothesis Hsrc : texts_of src = (pre ++ repeatN m n ++ params) :: map (fun T => pre ++ T) texts ++ [cpre ++ repeatN m n' ++ trail].
+
+Theorem fence_info_document_html xhtml :
+  html_of_parse (default_fuel md_cmark) md_cmark xhtml src =
+  inr (replace_nul (bs "<pre><code" ++ class_attr (bs "language-") params ++ bs ">" ++ escape_html (out_lines true texts) ++ bs "</code></pre>" ++ [10]%N)).
+Proof.
+  unfold html_of_parse, parse.
+  destruct cmark_inline_ok as [ic Hic].
+  pose proof cmark_core as Hc. pose proof cmark_block as Hb.
+  destruct (r_iter (md_core md_cmark)) as [rc cc]. destruct (r_iter (md_block md_cmark)) as [rb bc].
+  destruct (r_iter (md_inline md_cmark)) as [ri ich]. cbn [snd] in *. subst cc bc ich. cbn [bind ret].
+  rewrite cmark_prefix, cmark_nest.
+  cbn [fold_left]. unfold core_step at 3. cbn [bind ret].
+  change (C_BLOCK =? C_BLOCK) with true. cbv iota.
+  fold (texts_of src). rewrite Hsrc.
+  set (bcf := BCfg _ 100 (bs "language-")).
+  destruct (fence_block_parse bcf m n pre cpre params trail n' texts (mk KRoot None []) [] (default_fuel md_cmark)) as [rng Hbp]; try assumption.
+  - exists [R_QUOTE; R_HR; R_LIST; R_REF; R_HEADING; R_LHEADING; R_PARA]. right. reflexivity.
+  - reflexivity.
+  - vm_compute. lia.
+  - rewrite Hbp. cbn [bind ret fst snd].
+    unfold core_step at 2. cbn [bind ret]. change (C_INLINE =? C_BLOCK) with false. change (C_INLINE =? C_INLINE) with true. cbv iota.
+    cbn [set_children push_child mk n_children app inline_walk n_kind bind ret].
+    unfold core_step. cbn [bind ret]. change (C_FRAGJOIN =? C_BLOCK) with false. change (C_FRAGJOIN =? C_INLINE) with false.
+    change (C_FRAGJOIN =? C_FRAGJOIN) with true. cbv iota.
+    cbn [fj_walk map fragments_join set_children n_children marker_to_text n_kind fj_collapse is_text app d_root].
+    apply render_root_fence_info.
+Qed.
+
+End FenceInfoPipeline.
+
 (* ------------------------------------------------------------------ *)
 (* a document that is one indented code block                             *)
 
